@@ -944,7 +944,7 @@ extern "C" {
         lrtim: usize,
         epoch: usize,
         batch: usize,
-    );
+    ) -> real;
     fn a_regress_linear_zero(ctx: *mut regress_linear);
 }
 
@@ -1033,7 +1033,7 @@ impl regress_linear {
                 lrtim,
                 epoch,
                 batch,
-            )
+            );
         }
         self
     }
